@@ -679,6 +679,7 @@ Proof.
   destruct (existsb (list_eqb x) keywords); [discriminate |].
   destruct x as [| c r]; [discriminate |].
   intros H. apply orb_false_iff in H. destruct H as [H _].
+  apply orb_false_iff in H. destruct H as [H _].
   apply orb_false_iff in H. destruct H as [H1 H2].
   apply negb_false_iff in H1. apply negb_false_iff in H2.
   split; [reflexivity |]. now exists c, r.
